@@ -1,5 +1,6 @@
 """Query helpers shared by the rule tables."""
 import re
+from sa.pathsim import norm_cond
 
 from .cfg import cfg_of
 from .pathsim import PathSim, simulate, norm_cond, truth, NULL, C, is_const
@@ -268,3 +269,36 @@ def noepoch(sv):
             return ("elem", noepoch(sv[1]), noepoch(sv[2]))
         return tuple(noepoch(x) for x in sv)
     return sv
+
+
+def lock_state(p, lock_pred):
+    """per event index: number of locks (matching lock_pred on the lock object SV) held *before* that event.
+    Recognises x.lock()/x.unlock()/x.try_lock() (decided true) and RAII guards (unique_lock/lock_guard/scoped_lock variables) over x."""
+    ev = p.events
+    held = 0
+    out = []
+    raii = {}     # var decl id -> 1
+    trylocks = {}
+    for i, e in enumerate(ev):
+        out.append(held)
+        if e.kind == "call" and e.q:
+            name = e.q.split("::")[-1]
+            if name == "lock" and e.obj is not None and lock_pred(e.obj):
+                held += 1
+            elif name == "unlock" and e.obj is not None and lock_pred(e.obj):
+                held -= 1
+            elif name == "try_lock" and e.obj is not None and lock_pred(e.obj):
+                trylocks[e.val] = i
+        elif e.kind == "var" and e.extra and re.search(r"(unique_lock|lock_guard|scoped_lock)$", str(e.extra[1])):
+            if any(lock_pred(a) for a in (e.args or ())):
+                raii[e.obj] = 1
+                held += 1
+        elif e.kind == "dtor" and e.obj in raii:
+            held -= raii.pop(e.obj)
+        elif e.kind == "branch" and trylocks:
+            atom, pol = norm_cond(e.val)
+            if atom in trylocks and isinstance(e.extra, tuple) and (e.extra[1] == pol):
+                held += 1
+                del trylocks[atom]
+    out.append(held)
+    return out
